@@ -250,13 +250,7 @@ def build(prog, s, caps, embed=False, pinned=False, ctx=None):
         spec = inl[l]
         n = spec["na"] if s == 0 else spec["nb"]
         if n == 0 and spec["t"] == "tup":
-            if spec.get("le") and not pinned:
-                # known finding C05/empty-tuple-in-literal-values-prefix: 'IN (VALUES SELECT ...)' is a syntax error on SQLite
-                if ctx is not None and not embed:
-                    ctx.exclude("empty tuple IN list with literal_execute (known finding C05/empty-tuple-in-literal-values-prefix)")
-                n = 1
-            else:
-                out.features.add("empty-tuple-in")
+            out.features.add("empty-tuple-in")
         vals = [lval(spec["t"], l, i, s) for i in range(n)]
         out.exp_lists[l] = vals
         if n:
@@ -777,9 +771,9 @@ def check_live(case, ctx):
                         feats |= b.features
                         nontriv = nontriv or _nontrivial(b)
                         state["tags"] = dict(b.exp_tags)
-                        if ps == "literal" and (off_wo_limit or (prog["shape"] != "select" and prog.get("ret")) or "empty-tuple-in" in b.features):
-                            # literal_binds cannot express these (known findings C05/sqlite-offset-no-limit, C05/returning-ignores-literal-binds,
-                            # C05/empty-tuple-in-literal-values-prefix): no literal run for this set
+                        if ps == "literal" and (off_wo_limit or (prog["shape"] != "select" and prog.get("ret"))):
+                            # literal_binds cannot express these (known findings C05/sqlite-offset-no-limit, C05/returning-ignores-literal-binds):
+                            # no literal run for this set
                             outs.append(None)
                             continue
                         if ps == "literal":
